@@ -2510,6 +2510,29 @@ def remote_equals_direct(doc):
                 pass
             if len(bad) > 3:
                 break
+        # ... and neither does a process that is LOADED in a terminal state (a checkpoint of a finished or killed process)
+        import rprocs
+        Three.__qualname__ = Three.__name__ = 'RemoteThree'
+        Three.__module__ = 'rprocs'
+        setattr(rprocs, 'RemoteThree', Three)
+        for how in ('finished', 'killed'):
+            done = Three()
+            if how == 'killed':
+                done.kill('enough')
+                done.future().exception()       # (retrieved: no 'never retrieved' noise)
+            else:
+                await done.step()
+                await done.step()
+                done.resume()
+                await asyncio.wait_for(done.step_until_terminated(), 10)
+            comm = Comm()
+            loaded = plumpy.Bundle(done).unbundle(plumpy.LoadSaveContext(communicator=comm))
+            heard_ = []
+            try:
+                r = await unwrap(comm.rpc_send(str(loaded.pid), builder.status()))
+                bad.append(f'a process loaded in its terminal state ({loaded.state.name}) is reachable over RPC: status replies {str(r)[:60]}')
+            except kiwipy.UnroutableError:
+                pass
         return '; '.join(bad[:4]) or None
 
     return _run(main())
